@@ -21,11 +21,14 @@ class MemFS(object):
         self.log = []                       # (effect string, files snapshot)
         self.base = dict(self.files)
         self.complete = complete            # callable(fn, label): schedule completion of an aio op
+        self.on_effect = None               # callable(k) after the k-th effect was applied
         self.O_RDONLY = _os.O_RDONLY
 
     # ---- effect log
     def _effect(self, what):
         self.log.append((what, dict(self.files)))
+        if self.on_effect is not None:
+            self.on_effect(len(self.log))
 
     def snapshot(self, k):
         """FS contents after the first k effects."""
